@@ -15,6 +15,7 @@ Abstract events (all carry t = virtual time):
   crash(lossy) lost(n, c, pos) lostnote(n) sig(s) clock quiet(tmo) sendexit(status) fault(call) discard(n)
 """
 import os, re
+import repframe
 
 
 class Tables:
@@ -94,6 +95,7 @@ def project(trace, qdir, tables=None, dbto=b"postmaster@test.example", pfx=b""):
     child_of_send = {}  # pid -> info about a bounce qmail-queue run
     last_bounce_open = None
     pidrole = {}
+    framer = repframe.Framer()
 
     def ev(op, e, **kw):
         x = dict(BLANK, op=op, t=e.get("t", 0))
@@ -120,12 +122,12 @@ def project(trace, qdir, tables=None, dbto=b"postmaster@test.example", pfx=b""):
                 ev("delcmd", e, c=e["chan"], d=e["delnum"], n=T.n(n), a=T.a(bytes.fromhex(e["rcpt"])), s=T.a(bytes.fromhex(e["sender"])))
             elif op == "report":
                 data = bytes.fromhex(e["hex"])
-                if e.get("raw"):
-                    ev("rawreport", e, c=e["chan"])
-                else:
-                    k = chr(data[1]) if len(data) > 2 and chr(data[1]) in "KZD" else "G"
-                    ev("report", e, c=e["chan"], d=e["delnum"], k=k)
+                # one abstract report per complete frame of the channel's byte stream (lib/repframe.py); bytes that do not
+                # complete a frame yet produce no event
+                for fr in framer.feed(e["chan"], data):
+                    ev("report", e, c=e["chan"], d=fr[0], k=repframe.letter(fr), extra=min(len(fr), 1 << 20))
             elif op == "crash":
+                framer.reset()
                 ev("crash", e, lossy=e["lossy"])
             elif op == "lost":
                 ev("lost", e, n=T.n(e["n"]), c=e["chan"], pos=e["pos"])
@@ -144,6 +146,7 @@ def project(trace, qdir, tables=None, dbto=b"postmaster@test.example", pfx=b""):
             elif op == "end":
                 ev("end", e, extra=e["left"])
             elif op == "stopped":
+                framer.reset()
                 ev("stopped", e)
             elif op == "noexit":
                 ev("noexit", e)
